@@ -126,6 +126,21 @@ class Own:
         self.memo[key] = r
         return r
 
+    def _mutation_elems(self, t, worst, depth):
+        """Join in what later mutations put into the container denoted by ``t``."""
+        for ev, _ in self.s.mutations_of(t):
+            if ev.kind == "store" and op(ev.a) == "item":
+                worst = _worse(worst, self.tag(ev.b, depth + 1))
+            elif ev.kind in ("expr", "bind") and op(ev.a if ev.kind == "expr" else ev.b) == "call":
+                c = ev.a if ev.kind == "expr" else ev.b
+                m = callee_name(c)
+                args = c[2]
+                if m in ("append", "add", "insert", "setdefault") and args:
+                    worst = _worse(worst, self.tag(args[-1], depth + 1))
+                elif m in ("extend", "update") and args:
+                    worst = _worse(worst, self._elem(args[0], depth))
+        return worst
+
     def _elem(self, t, depth):
         """Element tag of a container-valued term."""
         x = self.tag(t, depth + 1)
@@ -202,7 +217,10 @@ class Own:
                 self.prov.add_binding(tgt, it)
             elt = t[2][2] if t[1] == "dict" else t[2]
             x = self.tag(elt, depth + 1)
-            return ("E", x) if x is not None and x[0] in ("B", "S", "F") else None
+            worst = x if x is not None and x[0] in ("B", "S", "F") else None
+            # a comprehension bound to a name and filled further afterwards
+            worst = self._mutation_elems(t, worst, depth)
+            return ("E", worst) if worst is not None else None
         if o == "new":
             worst = None
             init = t[4] if len(t) > 4 else None
@@ -210,16 +228,7 @@ class Own:
                 x = self.tag(init, depth + 1)
                 if x is not None and x[0] == "E":
                     worst = x[1]
-            for ev, _ in self.s.mutations_of(t):
-                if ev.kind == "store" and op(ev.a) == "item":
-                    worst = _worse(worst, self.tag(ev.b, depth + 1))
-                elif ev.kind == "expr" and op(ev.a) == "call":
-                    m = callee_name(ev.a)
-                    args = ev.a[2]
-                    if m in ("append", "add", "insert") and args:
-                        worst = _worse(worst, self.tag(args[-1], depth + 1))
-                    elif m in ("extend", "update") and args:
-                        worst = _worse(worst, self._elem(args[0], depth))
+            worst = self._mutation_elems(t, worst, depth)
             return ("E", worst) if worst is not None else None
         if o == "call":
             f = t[1]
